@@ -631,6 +631,10 @@ class VariantBase(productmd.common.MetadataBase):
             if variant in parents:
                 parent_uids = sorted([i.uid for i in parents])
                 raise ValueError("Dependency cycle detected; variant %s; parents: %s" % (variant.uid, parent_uids))
+        # IDs are unique within one container, whatever keys the variants are filed under (ID vs. UID on top-level)
+        for other in self.variants.values():
+            if other is not variant and other.id == variant.id:
+                raise ValueError("Variant ID already exists: %s" % variant.id)
         new_variant = self.variants.setdefault(variant_id, variant)
         if new_variant != variant:
             raise ValueError("Variant ID already exists: %s" % variant.id)
